@@ -105,7 +105,8 @@ def gen_case(rng, tier="quick"):
                                               "chain_control",
                                               "param_table",
                                               "open_params",
-                                              "guess_parameters"]),
+                                              "guess_parameters",
+                                              "td_interleaved"]),
                         rng.randrange(3), rng.randrange(1, 4)])
             continue
         if k == "new_corr":
@@ -879,6 +880,44 @@ def _run_case(case, dec, pristine):
                             start_time=0.1 * dti, subdiv_limit=None,
                             progress_type="silent").states
                     got, want = run(mk_shared("td", mk)), run(mk())
+                elif what == "td_interleaved":
+                    # two computations built from one time-dependent system
+                    # are alive at the same time and advance alternately
+                    need_bath()
+                    b = baths[0]
+                    tol = TOL_T
+                    dts = (dt, [0.05, 0.1, 0.2][(dti + 1) % 3])
+
+                    def mk():
+                        return oqupy.TimeDependentSystem(
+                            ham_t, gammas=[lambda t: 0.1 + 0.05 * t],
+                            lindblad_operators=[lambda t: o["-"]])
+
+                    def tempo_for(sy, d, t0):
+                        tp = oqupy.TempoParameters(dt=d, epsrel=EPSREL,
+                                                   dkmax=2,
+                                                   subdiv_limit=None)
+                        return oqupy.Tempo(sy, fresh_bath(b), tp, RHO0, t0)
+                    shared = mk_shared("td_i", mk)
+                    ta = tempo_for(shared, dts[0], 0.0)
+                    tb = tempo_for(shared, dts[1], 0.3)
+                    ta.compute(1.5 * dts[0], progress_type="silent")
+                    tb.compute((steps + 0.5) * dts[1],
+                               progress_type="silent")
+                    ta.compute((steps + 1.5) * dts[0],
+                               progress_type="silent")
+                    got = np.concatenate([
+                        np.array(ta.get_dynamics().states).ravel(),
+                        np.array(tb.get_dynamics().states).ravel()])
+                    fa = tempo_for(mk(), dts[0], 0.0)
+                    fa.compute((steps + 1.5) * dts[0],
+                               progress_type="silent")
+                    fb = tempo_for(mk(), dts[1], 0.3)
+                    fb.compute((steps + 0.5) * dts[1],
+                               progress_type="silent")
+                    want = np.concatenate([
+                        np.array(fa.get_dynamics().states).ravel(),
+                        np.array(fb.get_dynamics().states).ravel()])
                 elif what == "control":
                     def mk():
                         c = oqupy.Control(2)
